@@ -316,6 +316,142 @@ impl Chain {
         self.w.apply(&m.worker, &m.id, &TokenAmount::zero(), MinerMethod::ExtendSectorExpiration2 as u64, Some(params))
     }
 
+    // ------------------------------------------------------------------ deals, NI commit, replica update
+
+    pub fn market_add_balance(&self, from: &Address, for_addr: &Address, amount: &TokenAmount) -> Applied {
+        self.w.apply(
+            from,
+            &fil_actors_runtime::STORAGE_MARKET_ACTOR_ADDR,
+            amount,
+            fil_actor_market::Method::AddBalance as u64,
+            Some(fil_actor_market::AddBalanceParams { provider_or_client: *for_addr }),
+        )
+    }
+
+    /// Publish one (unverified) storage deal between account `client_idx` and miner `mi`.
+    pub fn publish_deal(&self, mi: usize, client_idx: usize, tag: u64, start: i64, end: i64) -> (Applied, Option<u64>) {
+        use fil_actor_market::{ClientDealProposal, DealProposal, Label, PublishStorageDealsParams, PublishStorageDealsReturn};
+        use fvm_shared::crypto::signature::{Signature, SignatureType};
+        let m = &self.miners[mi];
+        let proposal = DealProposal {
+            piece_cid: fil_actors_runtime::test_utils::make_piece_cid(format!("piece-{}", tag).as_bytes()),
+            piece_size: fvm_shared::piece::PaddedPieceSize(1 << 20),
+            verified_deal: false,
+            client: self.accounts[client_idx].0,
+            provider: m.id,
+            label: Label::String(format!("deal-{}", tag)),
+            start_epoch: start,
+            end_epoch: end,
+            storage_price_per_epoch: TokenAmount::from_atto(1u64 << 20),
+            provider_collateral: TokenAmount::from_whole(2),
+            client_collateral: TokenAmount::from_whole(1),
+        };
+        let bytes = fvm_ipld_encoding::to_vec(&proposal).unwrap();
+        let params = PublishStorageDealsParams {
+            deals: vec![ClientDealProposal { proposal, client_signature: Signature { sig_type: SignatureType::BLS, bytes } }],
+        };
+        let r = self.w.apply(&m.worker, &fil_actors_runtime::STORAGE_MARKET_ACTOR_ADDR, &TokenAmount::zero(), fil_actor_market::Method::PublishStorageDeals as u64, Some(params));
+        let id = if r.ok() {
+            r.ret.clone().and_then(|b| b.deserialize::<PublishStorageDealsReturn>().ok()).and_then(|x| x.ids.first().cloned())
+        } else { None };
+        (r, id)
+    }
+
+    /// Pre-commit one sector whose data are the given published deals (CommD from the deal pieces).
+    pub fn precommit_with_deals(&mut self, mi: usize, deal_ids: &[u64], extra_life: i64) -> (Applied, u64) {
+        let epoch = self.epoch();
+        let meta = fil_actors_integration_tests::util::precommit_meta_data_from_deals(&self.w.vm, deal_ids, SEAL_PROOF, false);
+        let exp = epoch + self.policy.min_sector_expiration + max_prove_commit_duration(&self.policy, SEAL_PROOF).unwrap() + extra_life;
+        let m = &mut self.miners[mi];
+        let sn = m.next_sector;
+        m.next_sector += 1;
+        let sectors = vec![SectorPreCommitInfo {
+            seal_proof: SEAL_PROOF,
+            sector_number: sn,
+            sealed_cid: make_sealed_cid(format!("sn: {}", sn).as_bytes()),
+            seal_rand_epoch: epoch - 1,
+            deal_ids: vec![],
+            expiration: exp,
+            unsealed_cid: meta.commd,
+        }];
+        let (worker, id) = (m.worker, m.id);
+        let r = self.w.apply(&worker, &id, &TokenAmount::zero(), MinerMethod::PreCommitSectorBatch2 as u64, Some(PreCommitSectorBatchParams2 { sectors }));
+        if r.ok() { self.miners[mi].ever_precommitted = true; }
+        (r, sn)
+    }
+
+    /// Prove-commit one sector activating the given deals (piece manifests notify the market).
+    pub fn prove_commit_with_deals(&self, mi: usize, sector: u64, deal_ids: &[u64]) -> Applied {
+        let m = &self.miners[mi];
+        let pieces = fil_actors_integration_tests::util::make_piece_manifests_from_deal_ids(&self.w.vm, deal_ids.to_vec());
+        let params = ProveCommitSectors3Params {
+            sector_activations: vec![SectorActivationManifest { sector_number: sector, pieces }],
+            sector_proofs: vec![RawBytes::new(vec![])],
+            aggregate_proof: RawBytes::default(),
+            aggregate_proof_type: None,
+            require_activation_success: false,
+            require_notification_success: false,
+        };
+        self.w.apply(&m.worker, &m.id, &TokenAmount::zero(), MinerMethod::ProveCommitSectors3 as u64, Some(params))
+    }
+
+    /// Non-interactive prove-commit of `n` fresh sectors scheduled at `proving_deadline`.
+    pub fn prove_commit_ni(&mut self, mi: usize, n: usize, proving_deadline: u64, extra_life: i64) -> (Applied, Vec<u64>) {
+        use fil_actor_miner::{ProveCommitSectorsNIParams, SectorNIActivationInfo};
+        let epoch = self.epoch();
+        let m = &mut self.miners[mi];
+        let mid = m.id.id().unwrap();
+        let mut nums = vec![];
+        let sectors: Vec<SectorNIActivationInfo> = (0..n).map(|_| {
+            let sn = m.next_sector;
+            m.next_sector += 1;
+            nums.push(sn);
+            SectorNIActivationInfo {
+                sealing_number: sn,
+                sealer_id: mid,
+                sealed_cid: make_sealed_cid(format!("sn: {}", sn).as_bytes()),
+                sector_number: sn,
+                seal_rand_epoch: (epoch - 10).max(0),
+                expiration: epoch + self.policy.min_sector_expiration + 1 + extra_life,
+            }
+        }).collect();
+        let params = ProveCommitSectorsNIParams {
+            sectors,
+            aggregate_proof: RawBytes::new(vec![1, 2, 3, 4]),
+            seal_proof_type: RegisteredSealProof::StackedDRG32GiBV1P2_Feat_NiPoRep,
+            aggregate_proof_type: fvm_shared::sector::RegisteredAggregateProof::SnarkPackV2,
+            proving_deadline,
+            require_activation_success: false,
+        };
+        let (worker, id) = (m.worker, m.id);
+        let r = self.w.apply(&worker, &id, &TokenAmount::zero(), MinerMethod::ProveCommitSectorsNI as u64, Some(params));
+        if r.ok() { self.miners[mi].ever_precommitted = true; }
+        (r, nums)
+    }
+
+    /// Replica update of a committed-capacity sector with the given deals.
+    pub fn replica_update(&self, mi: usize, updates: Vec<(u64, u64, u64, Vec<u64>)>) -> Applied {
+        use fil_actor_miner::{ProveReplicaUpdates3Params, SectorUpdateManifest};
+        let m = &self.miners[mi];
+        let sector_updates: Vec<SectorUpdateManifest> = updates.iter().map(|(sector, deadline, partition, deals)| SectorUpdateManifest {
+            sector: *sector,
+            deadline: *deadline,
+            partition: *partition,
+            new_sealed_cid: make_sealed_cid(format!("upd: {}", sector).as_bytes()),
+            pieces: fil_actors_integration_tests::util::make_piece_manifests_from_deal_ids(&self.w.vm, deals.clone()),
+        }).collect();
+        let params = ProveReplicaUpdates3Params {
+            sector_proofs: sector_updates.iter().map(|_| RawBytes::new(vec![1, 2, 3, 4])).collect(),
+            sector_updates,
+            aggregate_proof: RawBytes::default(),
+            update_proofs_type: fvm_shared::sector::RegisteredUpdateProof::StackedDRG32GiBV1,
+            aggregate_proof_type: None,
+            require_activation_success: false,
+            require_notification_success: false,
+        };
+        self.w.apply(&m.worker, &m.id, &TokenAmount::zero(), MinerMethod::ProveReplicaUpdates3 as u64, Some(params))
+    }
+
     pub fn withdraw(&self, mi: usize, by_owner: bool, amount: &TokenAmount) -> Applied {
         let m = &self.miners[mi];
         let from = if by_owner { m.owner } else { self.accounts.last().unwrap().0 };
